@@ -27,7 +27,11 @@ type decodeOutcome struct {
 // decodeAgainstRef feeds pieces into a fresh FrameCodec and compares every
 // Decode result with the independent parser. It returns a description of the
 // first disagreement, or "".
-func decodeAgainstRef(max int, pieces [][]byte) (out decodeOutcome, problem string) {
+//
+// previous, if given, is what the buffers went through before: the bytes of an earlier session are written into the same
+// source buffer, decoded as far as they go, and the buffers are then Reset and handed to a new codec - what
+// websocket.Stream does when it is handshaken again. None of it may show through.
+func decodeAgainstRef(max int, pieces [][]byte, previous ...[]byte) (out decodeOutcome, problem string) {
 	defer func() {
 		if r := recover(); r != nil {
 			problem = fmt.Sprintf("decoder panicked: %v", r)
@@ -36,6 +40,17 @@ func decodeAgainstRef(max int, pieces [][]byte) (out decodeOutcome, problem stri
 	src := sonic.NewByteBuffer()
 	dst := sonic.NewByteBuffer()
 	codec := websocket.NewFrameCodec(src, dst, max)
+	for _, prev := range previous {
+		_, _ = src.Write(prev)
+		for i := 0; i < 8; i++ {
+			if _, err := codec.Decode(src); err != nil {
+				break
+			}
+		}
+		src.Reset()
+		dst.Reset()
+		codec = websocket.NewFrameCodec(src, dst, max)
+	}
 	initialCap := src.Cap()
 	var fed []byte
 	offset := 0 // reference offset of the next frame in fed
@@ -206,7 +221,7 @@ func splitBytes(t *rapid.T, b []byte, maxPieces int, lbl string) ([][]byte, []in
 
 func TestC07_DecoderVsReference(t *testing.T) {
 	rec := evid.For("C07")
-	rec.SetRule("rapid: byte streams built from 1..5 frames over all header bits x opcode 0..15 x mask x length classes {0,1,125,126,127,65535,65536,max-1,max, non-minimal encodings, declared lengths max+1, 2^31, 2^32, 2^63, 2^64-1 (header lies)}, optionally truncated or followed by arbitrary bytes, or fully arbitrary bytes; each stream fed whole and under a generated split into 1..4 pieces (cuts biased into headers) to FrameCodec.Decode and compared call by call with an independent RFC 6455 parser (frame bytes, accessors, ErrNeedMore iff incomplete, error iff declared>max, exact consumption, bounded capacity); plus Encode->Decode round trips; non-trivial = a 16/64-bit length OR a cut inside a frame header OR a declared length above max; distinct = hash of stream+cuts")
+	rec.SetRule("rapid: byte streams built from 1..5 frames over all header bits x opcode 0..15 x mask x length classes {0,1,125,126,127,65535,65536,max-1,max, non-minimal encodings, declared lengths max+1, 2^31, 2^32, 2^63, 2^64-1 (header lies)}, optionally truncated or followed by arbitrary bytes, or fully arbitrary bytes; each stream fed whole and under a generated split into 1..4 pieces (cuts biased into headers) to FrameCodec.Decode and compared call by call with an independent RFC 6455 parser (frame bytes, accessors, ErrNeedMore iff incomplete, error iff declared>max, exact consumption, bounded capacity); in a quarter of the cases additionally through buffers that held 1..3 (possibly truncated) frames of an earlier session, were decoded from, Reset and given to a new codec, as a re-handshaken Stream does: same outcome required; plus Encode->Decode round trips; non-trivial = a 16/64-bit length OR a cut inside a frame header OR a declared length above max; distinct = hash of stream+cuts")
 	vt.Check(t, 4000, func(t *rapid.T) {
 		max := rapid.SampledFrom([]int{70000, 70000, 300, 125, 65536}).Draw(t, "max")
 		var stream []byte
@@ -255,12 +270,33 @@ func TestC07_DecoderVsReference(t *testing.T) {
 		if p2 != "" {
 			t.Fatalf("split input (max=%d, cuts=%v, %d bytes %x..): %s", max, cuts, len(stream), head(stream, 24), p2)
 		}
+		if rapid.IntRange(0, 3).Draw(t, "reused") == 0 {
+			// the same input through buffers that served an earlier session
+			var prev []byte
+			for i, n := 0, rapid.IntRange(1, 3).Draw(t, "prevFrames"); i < n; i++ {
+				f, _ := genFrame(t, 300, fmt.Sprintf("prev%d.", i))
+				f.DeclaredLen = 0
+				if len(f.Payload) > 300 {
+					f.Payload = f.Payload[:300]
+				}
+				prev = append(prev, rfc6455.Encode(f)...)
+			}
+			prev = prev[:rapid.IntRange(1, len(prev)).Draw(t, "prevCut")]
+			reused, p3 := decodeAgainstRef(max, pieces, prev)
+			if p3 != "" {
+				t.Fatalf("split input (max=%d, cuts=%v, %d bytes %x..) through buffers that held %d bytes %x.. of an earlier session and were Reset: %s", max, cuts, len(stream), head(stream, 24), len(prev), head(prev, 16), p3)
+			}
+			if reused.frames != split.frames || reused.terminal != split.terminal || fmt.Sprint(reused.lens) != fmt.Sprint(split.lens) {
+				t.Fatalf("outcome depends on what the buffers held before Reset: fresh=%+v reused=%+v cuts=%v stream=%x.. previous=%x..", split, reused, cuts, head(stream, 24), head(prev, 16))
+			}
+			classes["reused-buffers"] = true
+		}
 		if whole.frames != split.frames || whole.terminal != split.terminal || fmt.Sprint(whole.lens) != fmt.Sprint(split.lens) {
 			t.Fatalf("outcome depends on the split: whole=%+v split=%+v cuts=%v stream=%x..", whole, split, cuts, head(stream, 24))
 		}
 		nt := classes["16bit"] || classes["64bit"] || classes["over-max"] || cutInHeader
 		var cls []string
-		for _, k := range []string{"over-max", "64bit", "16bit", "7bit", "arbitrary", "truncated", "garbage-tail"} {
+		for _, k := range []string{"over-max", "64bit", "16bit", "7bit", "arbitrary", "truncated", "garbage-tail", "reused-buffers"} {
 			if classes[k] {
 				cls = append(cls, k)
 			}
